@@ -1,3 +1,4 @@
+#![allow(dead_code, non_snake_case)]
 //! serde's renaming rules (a port of serde_derive/src/internals/case.rs, field rule and variant
 //! rule kept apart) and the precedence rename > rename_all > identity. Validated at start-up
 //! against types compiled with the real serde_derive (`validate()`).
